@@ -142,9 +142,7 @@ Qed.
 Lemma apply_data_local sch new it :
   apply_data sch false new it = overlay new it.
 Proof.
-  unfold apply_data. rewrite copy_nonnil_overlay.
-  rewrite update_fields_local by (rewrite overlay_length; reflexivity).
-  apply overlay_fill.
+  unfold apply_data, restore_wc. apply copy_nonnil_overlay.
 Qed.
 
 (* ---------------------------------------------------------------- clear *)
